@@ -48,9 +48,10 @@ def quick_equal(a, b, timeout_ms=800):
         return True
     c = _ctx.current()
     s = _ctx.mk_solver(timeout_ms)
-    for x in c.base_constraints():
+    bc = c.base_constraints()
+    for x in bc:
         s.add(x)
-    for x in _ax.instances(None, c):
+    for x in _ax.instances(bc + [N], c):
         s.add(x)
     s.add(N != 0)
     t0 = time.time()
@@ -216,10 +217,12 @@ class Prover:
     # -------------------------------------------------------------------------------- solving
     def _solve(self, o, negated_goal, try_free):
         c = self.c
-        axs = list(_ax.instances(None, c))
+        bc = c.base_constraints()
+        axs_free = list(_ax.instances([negated_goal], c))
+        axs = list(_ax.instances(bc + [negated_goal], c))
         if try_free:
             s = _ctx.mk_solver(self.free_timeout_ms)
-            for a in axs:
+            for a in axs_free:
                 s.add(a)
             s.add(negated_goal)
             t0 = time.time()
@@ -231,7 +234,7 @@ class Prover:
                 self._sample(o, s)
                 return
         s = _ctx.mk_solver(self.timeout_ms)
-        for a in c.base_constraints():
+        for a in bc:
             s.add(a)
         for a in axs:
             s.add(a)
@@ -271,9 +274,10 @@ class Prover:
         """A (boxed, if possible) model of assumptions + path condition, for concrete failures."""
         c = self.c
         s = _ctx.mk_solver(3000)
-        for a in c.base_constraints():
+        bc = c.base_constraints()
+        for a in bc:
             s.add(a)
-        for a in _ax.instances(None, c):
+        for a in _ax.instances(bc, c):
             s.add(a)
         s.push()
         for name, t in c.symbols.items():
